@@ -48,9 +48,12 @@ SYNC_TYPE = re.compile(r"\b(MutexLock|Condition|CountDownLatch|Thread|pthread_mu
 
 
 # ------------------------------------------------------------------ clang
+EXTRA_INC = []           # -I of the directory protoc generated rpc.pb.h into (protorpc translation units)
+
+
 def parse_tu(path):
     p = path if os.path.isabs(path) else os.path.join(REPO, path)
-    cmd = ["clang++", "-std=c++11", "-I" + REPO, "-fsyntax-only", "-w", "-DCHECK_PTHREAD_RETURN_VALUE",
+    cmd = ["clang++", "-std=c++11", "-I" + REPO] + EXTRA_INC + ["-fsyntax-only", "-w", "-DCHECK_PTHREAD_RETURN_VALUE",
            "-Xclang", "-ast-dump=json", "-Xclang", "-ast-dump-filter=muduo", p]
     r = subprocess.run(cmd, stdout=subprocess.PIPE, stderr=subprocess.PIPE, timeout=300)
     txt = r.stdout.decode("utf-8", "replace")
@@ -961,10 +964,32 @@ def finish_tails(classes):
 
 # ------------------------------------------------------------------ static storage inventory
 def all_tus():
+    """every translation unit of the property-anchored directories (C18: http, protobuf; C19: the three hand-written
+    protorpc files - not the protoc-generated *.pb.cc)."""
     fs = []
-    for pat in ("muduo/base/*.cc", "muduo/net/*.cc", "muduo/net/poller/*.cc"):
+    for pat in ("muduo/base/*.cc", "muduo/net/*.cc", "muduo/net/poller/*.cc", "muduo/net/http/*.cc", "muduo/net/protobuf/*.cc"):
         fs += glob.glob(os.path.join(REPO, pat))
+    for f in ("RpcChannel.cc", "RpcCodec.cc", "RpcServer.cc"):
+        if os.path.exists(os.path.join(REPO, "muduo/net/protorpc", f)):
+            fs.append(os.path.join(REPO, "muduo/net/protorpc", f))
     return sorted(os.path.relpath(f, REPO) for f in fs if not f.endswith(("_test.cc", "_unittest.cc", "boilerplate.cc")))
+
+
+def protoc_rpc(outdir):
+    """rpc.pb.h / rpcservice.pb.h for the protorpc translation units (as vlib.protoc_rpc does for C19's driver)."""
+    dst = os.path.join(outdir, "muduo/net/protorpc")
+    os.makedirs(dst, exist_ok=True)
+    src = os.path.join(REPO, "muduo/net/protorpc")
+    protos = [os.path.join(src, f) for f in ("rpc.proto", "rpcservice.proto") if os.path.exists(os.path.join(src, f))]
+    if not protos:
+        return False
+    r = subprocess.run(["protoc", "--cpp_out=" + dst, "-I" + src] + protos, stdout=subprocess.PIPE, stderr=subprocess.PIPE, timeout=120)
+    if r.returncode != 0:
+        MISSING.append("MISSING static inventory: protoc failed (%s)" % r.stderr.decode("utf-8", "replace").strip()[:160])
+    return r.returncode == 0
+
+
+INVENTORY_FAILED = []
 
 
 def norm_static_name(dem):
@@ -975,6 +1000,7 @@ def norm_static_name(dem):
         prev = n
         n = re.sub(r"\([^()]*\)", "", n)
     n = re.sub(r"\s*\[clone[^\]]*\]", "", n)
+    n = re.sub(r"\[abi:[^\]]*\]", "", n)
     return re.sub(r"\s+", "", n)
 
 
@@ -989,7 +1015,7 @@ def elf_inventory(tus):
     try:
         def cc(tu):
             o = os.path.join(tmp, tu.replace("/", "_") + ".o")
-            r = subprocess.run(["clang++", "-std=c++11", "-I" + REPO, "-O0", "-w", "-DCHECK_PTHREAD_RETURN_VALUE", "-c",
+            r = subprocess.run(["clang++", "-std=c++11", "-I" + REPO] + EXTRA_INC + ["-O0", "-w", "-DCHECK_PTHREAD_RETURN_VALUE", "-c",
                                 os.path.join(REPO, tu), "-o", o], stdout=subprocess.PIPE, stderr=subprocess.PIPE, timeout=300)
             return tu, o, r.returncode, r.stderr.decode("utf-8", "replace")
         with ThreadPoolExecutor(max_workers=12) as ex:
@@ -997,6 +1023,7 @@ def elf_inventory(tus):
         for (tu, o, rc, err) in objs:
             if rc != 0:
                 MISSING.append("MISSING static inventory: %s does not compile (%s)" % (tu, err.strip()[:160]))
+                INVENTORY_FAILED.append(tu)
                 continue
             sec = {}
             for line in subprocess.run(["readelf", "-SW", o], stdout=subprocess.PIPE).stdout.decode().split("\n"):
@@ -1016,8 +1043,10 @@ def elf_inventory(tus):
             dem = subprocess.run(["c++filt"], input="\n".join(x[0] for x in syms).encode(), stdout=subprocess.PIPE).stdout.decode().split("\n")
             for (sym, tls, size, secname), d in zip(syms, dem):
                 d = d.strip()
-                if d.startswith(("DW.ref.", "std::", "boost::", "__", "guard variable", "vtable", "typeinfo", "VTT")):
+                if d.startswith(("DW.ref.", "std::", "boost::", "google::", "__", "guard variable", "vtable", "typeinfo", "VTT")):
                     continue
+                if re.search(r"_default_instance_|descriptor_table_|TableStruct_|_pb_|scc_info_", d):
+                    continue                      # protoc-generated inline statics seen through rpc.pb.h: out of scope
                 name = norm_static_name(d)
                 e = inv.setdefault(name, {"name": name, "where": tu, "tls": tls, "size": size, "section": secname, "demangled": d,
                                           "atomic": False, "type": "?", "accs": []})
@@ -1380,6 +1409,19 @@ STATIC_INV = {}
 
 
 def extract():
+    import tempfile, shutil
+    gen = tempfile.mkdtemp(prefix="gen_", dir=WORK)
+    try:
+        if protoc_rpc(gen):
+            EXTRA_INC[:] = ["-I" + gen]
+        return extract_with_includes()
+    finally:
+        EXTRA_INC[:] = []
+        shutil.rmtree(gen, ignore_errors=True)
+
+
+def extract_with_includes():
+    del INVENTORY_FAILED[:]
     tus = sorted(set(tu for (_, tu) in CLASSES) | set(all_tus()))
     with ThreadPoolExecutor(max_workers=12) as ex:
         parsed = dict(zip(tus, ex.map(parse_tu, tus)))
@@ -1432,7 +1474,8 @@ def main():
         buf = io.StringIO()
         with contextlib.redirect_stdout(buf):
             v = emit_coq(classes, table, key)
-        summ = {"repo": REPO, "key": key, "classes": {}, "statics": STATIC_INV}
+        summ = {"repo": REPO, "key": key, "classes": {}, "statics": STATIC_INV, "static_tus": all_tus(),
+                "static_tus_failed": list(INVENTORY_FAILED)}
         for name in STATIC_INV:
             if name not in table["statics"]:
                 MISSING.append("MISSING table: no protection class for static-storage variable %s (%s, %s)" % (name, STATIC_INV[name]["where"], STATIC_INV[name]["type"]))
